@@ -504,7 +504,9 @@ impl Mp4Track {
         if !self.trafs.is_empty() {
             let mut base_start_time = 0;
             let mut default_sample_duration = self.default_sample_duration;
+            let mut index_in_run = 0u64;
             if let Some((traf_idx, sample_idx)) = self.find_traf_idx_and_sample_idx(sample_id) {
+                index_in_run = sample_idx as u64;
                 let traf = &self.trafs[traf_idx];
                 if let Some(tfdt) = &traf.tfdt {
                     base_start_time = tfdt.base_media_decode_time;
@@ -525,7 +527,9 @@ impl Mp4Track {
                     }
                 }
             }
-            let start_offset = ((sample_id - 1) * default_sample_duration) as u64;
+            // the base decode time of the fragment already accounts for the
+            // samples of earlier fragments
+            let start_offset = index_in_run * default_sample_duration as u64;
             Ok((base_start_time + start_offset, default_sample_duration))
         } else {
             let stts = &self.trak.mdia.minf.stbl.stts;
